@@ -413,9 +413,15 @@ async fn selected_chunks(env: &Env, node: &QueryNode, sql: &str) -> Option<usize
 }
 
 /// class of a violating run on `node` (state taken BEFORE the statement ran)
-async fn classify(env: &Env, bound_int: bool, selected: Option<usize>, model: &mut Model, report: &mut Report) -> String {
+async fn classify(env: &Env, bound_int: bool, selected: Option<usize>, where_sql: &str, model: &mut Model, report: &mut Report) -> String {
     let data_int = env.cfg.kind == TsKind::Int;
     let Some(n) = selected else { return String::new() };
+    // the class is about a LEGITIMATELY empty selection: no ingested row may match the WHERE clause
+    // (a selection that is empty because pruning dropped a matching chunk is a violation, never known)
+    let cnt = run_reference(env, &format!("SELECT count(*) AS n FROM metrics WHERE {}", where_sql)).await;
+    if cnt != Ok(vec!["n=0".to_string()]) {
+        return String::new();
+    }
     let mine = known_class_replica(bound_int, data_int, n);
     let line = format!("K {} {} {}", if bound_int { "i" } else { "n" }, if data_int { "i" } else { "n" }, n);
     let (differs, m) = model.differs(&line, mine);
@@ -499,7 +505,7 @@ pub struct QueryOutcome {
 
 /// the oracle: pipeline answer == full-scan answer, on a warm node (twice) and a cold one.
 /// Every mismatch carries the known-finding class of the node state it ran in ("" = none).
-pub async fn check_query(env: &Env, warm: &QueryNode, sql: &str, also_fresh: bool, model: &mut Model, report: &mut Report) -> (QueryOutcome, Answer) {
+pub async fn check_query(env: &Env, warm: &QueryNode, sql: &str, where_sql: &str, also_fresh: bool, model: &mut Model, report: &mut Report) -> (QueryOutcome, Answer) {
     let reference = run_reference(env, sql).await;
     let mut bad = Vec::new();
     let mut classes: Vec<String> = Vec::new();
@@ -514,7 +520,7 @@ pub async fn check_query(env: &Env, warm: &QueryNode, sql: &str, also_fresh: boo
         if !same(&got, &reference) {
             // classify with the node state before the statement (the selection does not depend on it)
             let selected = selected_chunks(env, node, sql).await;
-            let class = if got.is_err() && reference.is_ok() { classify(env, bound, selected, model, report).await } else { String::new() };
+            let class = if got.is_err() && reference.is_ok() { classify(env, bound, selected, where_sql, model, report).await } else { String::new() };
             bad.push(json!({"run": name, "got": show(&got), "class": class, "bound_timestamp_is_int64": bound, "selected_chunks": selected}));
             classes.push(class);
         }
@@ -523,6 +529,17 @@ pub async fn check_query(env: &Env, warm: &QueryNode, sql: &str, also_fresh: boo
     // the run is a known finding only if every mismatch falls in one known class
     let class = if !classes.is_empty() && classes.iter().all(|c| !c.is_empty() && c == &classes[0]) { classes[0].clone() } else { String::new() };
     (QueryOutcome { ok, class, detail: json!({"sql": sql, "full_scan": show(&reference), "mismatches": bad}) }, reference)
+}
+
+/// conjunction of the statement's visible filters, as SQL
+fn where_of(case: &UnitCase) -> String {
+    visible_filters(case).iter().filter(|f| **f != P::Label(HAVING_ATOM)).map(|f| format!("({})", f.sql())).collect::<Vec<_>>().join(" AND ")
+}
+
+/// WHERE text of a plain single-SELECT corpus statement
+fn where_of_sql(sql: &str) -> &str {
+    let w = sql.split(" WHERE ").nth(1).unwrap_or("true");
+    w.split(" GROUP BY ").next().unwrap_or(w)
 }
 
 fn ds_cfg(rng: &mut Rng, d: usize) -> DsCfg {
@@ -579,7 +596,7 @@ pub async fn run_dataset(seed: u64, d: usize, n_queries: usize, only_query: Opti
             report.bump("e2e.generator.window_not_recognised");
         }
         let sql = unit_sql(&case);
-        let (out, reference) = check_query(&env, &warm, &sql, q % 4 == 0 || only_query.is_some(), model, report).await;
+        let (out, reference) = check_query(&env, &warm, &sql, &where_of(&case), q % 4 == 0 || only_query.is_some(), model, report).await;
         report.impl_runs += 1;
         let nontrivial = matches!(&reference, Ok(rows) if !rows.is_empty());
         let key = format!("e2e|{}|{}", d, sql);
@@ -622,7 +639,7 @@ pub async fn run_dataset(seed: u64, d: usize, n_queries: usize, only_query: Opti
                     }
                     budget -= 1;
                     let s = unit_sql(&cand);
-                    let (o, _) = check_query(&env, &warm, &s, true, model, report).await;
+                    let (o, _) = check_query(&env, &warm, &s, &where_of(&cand), true, model, report).await;
                     if !o.ok && o.class == out.class {
                         cur = cand;
                         progress = true;
@@ -634,17 +651,22 @@ pub async fn run_dataset(seed: u64, d: usize, n_queries: usize, only_query: Opti
                 }
             }
             let ssql = unit_sql(&cur);
-            let (so, _sref) = check_query(&env, &warm, &ssql, true, model, report).await;
+            let shrunk = ssql != sql;
+            let so = if shrunk { check_query(&env, &warm, &ssql, &where_of(&cur), true, model, report).await.0 } else { QueryOutcome { ok: false, class: out.class.clone(), detail: out.detail.clone() } };
             let class = if so.ok { out.class.clone() } else { so.class.clone() };
             if !class.is_empty() {
                 report.bump(&format!("e2e.known_finding.{}", class));
             }
-            report.oracle_violation(
-                &class,
-                &format!("QueryNode::query answer differs from the full scan of all ingested rows: {}", ssql),
-                json!({"level": "e2e", "seed": seed, "dataset": d, "query": q, "cfg": cfg_json(&cfg), "sql": sql,
-                       "shrunk_sql": ssql, "result": out.detail, "shrunk_result": so.detail}),
-            );
+            // keep room in the (capped) violation list for unclassified failures
+            let already = report.oracle_violations.iter().filter(|v| v["class"].as_str() == Some(class.as_str())).count();
+            if class.is_empty() || already < 5 {
+                report.oracle_violation(
+                    &class,
+                    &format!("QueryNode::query answer differs from the full scan of all ingested rows: {}", ssql),
+                    json!({"level": "e2e", "seed": seed, "dataset": d, "query": q, "cfg": cfg_json(&cfg), "sql": sql,
+                           "shrunk_sql": ssql, "result": out.detail, "shrunk_result": so.detail}),
+                );
+            }
         }
         // semantics of Model/Pred.v against DataFusion on this dataset
         if cfg.kind == TsKind::Int && only_query.is_none() {
@@ -699,7 +721,7 @@ pub async fn run_corpus(model: &mut Model, report: &mut Report) {
     ];
     for (k, sql) in witnesses.iter().enumerate() {
         // the fresh node of check_query would fall into the known class only for an empty selection; these select chunks
-        let (out, reference) = check_query(&env, &warm, sql, true, model, report).await;
+        let (out, reference) = check_query(&env, &warm, sql, where_of_sql(sql), true, model, report).await;
         report.impl_runs += 1;
         let key = format!("e2e-corpus|{}", sql);
         report.case(if matches!(&reference, Ok(r) if !r.is_empty()) { Some(&key) } else { None });
@@ -720,7 +742,7 @@ pub async fn run_corpus(model: &mut Model, report: &mut Report) {
     report.case(None);
     report.bump("e2e.corpus.known_finding_witness");
     if !same(&got, &reference) {
-        let class = if got.is_err() && reference.is_ok() { classify(&env, bound, selected, model, report).await } else { String::new() };
+        let class = if got.is_err() && reference.is_ok() { classify(&env, bound, selected, where_of_sql(sql), model, report).await } else { String::new() };
         report.oracle_violation(&class, &format!("fresh QueryNode over Int64 chunks: {} -> {:?}, full scan -> {:?}", sql, got, reference),
             json!({"level": "e2e-corpus", "witness": "known-finding", "sql": sql, "bound_timestamp_is_int64": bound, "selected_chunks": selected}));
     } else {
